@@ -398,63 +398,84 @@ Proof. unfold step_log. cbn [step_gen]. apply until_loop_naive. intros j Hj; lia
 (* receive_exactly                                                                                  *)
 (* ------------------------------------------------------------------------------------------------ *)
 
-Definition exactly_post (b : list Z) (sr : list (list Z)) (n : Z) (s' : st) (r : res) (pulled : list Z) : Prop :=
-  concat sr = pulled ++ concat (src s') /\
+(* what arrives during a receive_exactly call, in order: for each fetch the data fed during its wait, then the chunk
+   (nothing if the fetch met the end of the stream); `pulled` = what came out of the wrapped stream *)
+Inductive weave : list (list Z) -> list Z -> list Z -> Prop :=
+| weave_nil fs : weave fs [] []
+| weave_end fs : weave fs [] (hd [] fs)
+| weave_cons fs c pulled lg : weave (tl fs) pulled lg -> weave fs (c ++ pulled) (hd [] fs ++ c ++ lg).
+
+Lemma weave_nofeed fs pulled lg : weave fs pulled lg -> fs = [] -> lg = pulled.
+Proof.
+  induction 1 as [fs|fs|fs c pulled lg W IH]; intros ->; cbn; try reflexivity.
+  rewrite (IH eq_refl). reflexivity.
+Qed.
+
+Definition exactly_post (b : list Z) (sr : list (list Z)) (n : Z) (fs : list (list Z)) (s' : st) (r : res)
+  (lg : list Z) : Prop :=
+  (exists pulled, concat sr = pulled ++ concat (src s') /\ weave fs pulled lg) /\
   (chunks_nonempty sr -> chunks_nonempty (src s')) /\
-  (pulled = [] \/ (Z.of_nat (length b) < n)%Z) /\
+  (lg = [] \/ (Z.of_nat (length b) < n)%Z) /\
   match r with
-  | RBytes x => x = firstn (cut n (b ++ pulled)) (b ++ pulled) /\
-                buf s' = skipn (cut n (b ++ pulled)) (b ++ pulled) /\
-                (n <= Z.of_nat (length (b ++ pulled)))%Z
-  | RIncomplete => buf s' = b ++ pulled /\ src s' = [] /\ (Z.of_nat (length (buf s')) < n)%Z
-  | RCancelled => buf s' = b ++ pulled
+  | RBytes x => x = firstn (cut n (b ++ lg)) (b ++ lg) /\
+                buf s' = skipn (cut n (b ++ lg)) (b ++ lg) /\
+                (n <= Z.of_nat (length (b ++ lg)))%Z
+  | RIncomplete => buf s' = b ++ lg /\ src s' = [] /\ (fs = [] -> (Z.of_nat (length (buf s')) < n)%Z) /\
+                   (Z.of_nat (length b) < n)%Z
+  | RCancelled => buf s' = b ++ lg
   | _ => False
   end.
 
-Lemma exactly_loop_spec fuel : forall cn s n s' r lg,
+Lemma exactly_loop_spec fuel : forall cn s n fs s' r lg,
   measure (src s) < fuel ->
-  exactly_loop fuel cn s n = (s', r, lg) ->
-  knd s' = knd s /\ exactly_post (buf s) (src s) n s' r lg.
+  exactly_loop fuel cn s n fs = (s', r, lg) ->
+  knd s' = knd s /\ exactly_post (buf s) (src s) n fs s' r lg.
 Proof.
-  induction fuel as [|f IH]; intros cn s n s' r lg Hm H; [lia|].
+  induction fuel as [|f IH]; intros cn s n fs s' r lg Hm H; [lia|].
   cbn [exactly_loop] in H.
   destruct (n - Z.of_nat (length (buf s)) <=? 0)%Z eqn:E.
   - injection H as <- <- <-. split; [reflexivity|].
     unfold exactly_post. cbn [src buf]. rewrite !app_nil_r.
-    refine (conj eq_refl (conj (fun h => h) (conj (or_introl eq_refl) (conj eq_refl (conj eq_refl _))))). lia.
+    refine (conj (ex_intro _ [] (conj eq_refl (weave_nil fs)))
+              (conj (fun h => h) (conj (or_introl eq_refl) (conj eq_refl (conj eq_refl _))))). lia.
   - destruct (hit cn) eqn:Hcn.
     { injection H as <- <- <-. split; [reflexivity|]. unfold exactly_post. rewrite !app_nil_r.
-      exact (conj eq_refl (conj (fun h => h) (conj (or_introl eq_refl) eq_refl))). }
+      exact (conj (ex_intro _ [] (conj eq_refl (weave_nil fs))) (conj (fun h => h) (conj (or_introl eq_refl) eq_refl))). }
     set (ask := match knd s with KByte => Z.to_nat (n - Z.of_nat (length (buf s))) | KObject => default_max end) in H.
     assert (Hask : 1 <= ask).
     { unfold ask. destruct (knd s); [lia|apply default_max_pos]. }
     destruct (pull (knd s) ask (src s)) as [[c r0]|] eqn:P.
-    + destruct (exactly_loop f (pred cn) (mk (knd s) (buf s ++ c) r0) n) as [[s1 r1] lg1] eqn:R.
+    + destruct (exactly_loop f (pred cn) (mk (knd s) ((buf s ++ hd [] fs) ++ c) r0) n (tl fs)) as [[s1 r1] lg1] eqn:R.
       injection H as <- <- <-.
       pose proof (pull_spec _ _ _ _ _ P) as Hc.
       pose proof (pull_measure _ _ _ _ _ P Hask) as Hms.
-      assert (Hm' : measure (src (mk (knd s) (buf s ++ c) r0)) < f) by (cbn [src]; lia).
-      destruct (IH _ _ n s1 r1 lg1 Hm' R) as (Hk & H1 & H2 & H3 & H4).
+      assert (Hm' : measure (src (mk (knd s) ((buf s ++ hd [] fs) ++ c) r0)) < f) by (cbn [src]; lia).
+      destruct (IH _ _ n (tl fs) s1 r1 lg1 Hm' R) as (Hk & (pl & H1 & W) & H2 & H3 & H4).
       cbn [buf src knd] in Hk, H1, H2, H3, H4.
       split; [exact Hk|]. unfold exactly_post.
       refine (conj _ (conj _ (conj _ _))).
-      * rewrite Hc, H1, app_assoc. reflexivity.
+      * exists (c ++ pl). split; [rewrite Hc, H1, app_assoc; reflexivity | now apply weave_cons].
       * intros Hs. apply H2. apply (pull_nonempty _ _ _ _ _ Hs Hask P).
       * right. lia.
-      * rewrite app_assoc. exact H4.
+      * rewrite <- ?app_assoc in H4. rewrite <- ?app_assoc.
+        destruct r1; try exact H4. destruct H4 as (A & B & C & D). refine (conj A (conj B (conj _ _))).
+        -- intros ->. apply C. reflexivity.
+        -- rewrite !app_length in D. lia.
     + injection H as <- <- <-. split; [reflexivity|]. apply pull_none in P.
-      unfold exactly_post. rewrite !app_nil_r.
-      refine (conj eq_refl (conj (fun h => h) (conj (or_introl eq_refl) (conj eq_refl (conj P _))))). lia.
+      unfold exactly_post. cbn [buf src].
+      refine (conj (ex_intro _ [] (conj eq_refl (weave_end fs)))
+                (conj (fun h => h) (conj _ (conj eq_refl (conj P (conj _ _)))))); [right; lia| |lia].
+      intros ->. cbn [hd]. rewrite app_nil_r. lia.
 Qed.
 
 (* without a cancellation request no call ends in RCancelled *)
-Lemma exactly_loop_0 fuel : forall s n, snd (fst (exactly_loop fuel 0 s n)) <> RCancelled.
+Lemma exactly_loop_0 fuel : forall s n fs, snd (fst (exactly_loop fuel 0 s n fs)) <> RCancelled.
 Proof.
-  induction fuel as [|f IH]; intros s n; cbn [exactly_loop hit Nat.eqb pred]; [discriminate|].
+  induction fuel as [|f IH]; intros s n fs; cbn [exactly_loop hit Nat.eqb pred]; [discriminate|].
   destruct (n - Z.of_nat (length (buf s)) <=? 0)%Z; [discriminate|].
   destruct (pull (knd s) _ (src s)) as [[c r0]|]; [|discriminate].
-  specialize (IH (mk (knd s) (buf s ++ c) r0) n).
-  destruct (exactly_loop f 0 (mk (knd s) (buf s ++ c) r0) n) as [[s1 r1] l1]. exact IH.
+  specialize (IH (mk (knd s) ((buf s ++ hd [] fs) ++ c) r0) n (tl fs)).
+  destruct (exactly_loop f 0 (mk (knd s) ((buf s ++ hd [] fs) ++ c) r0) n (tl fs)) as [[s1 r1] l1]. exact IH.
 Qed.
 
 Lemma until_loop_0 fuel : forall s d m off fs, snd (fst (until_loop false fuel 0 s d m off fs)) <> RCancelled.
@@ -483,7 +504,8 @@ Definition log_spec (s : st) (o : op) (s' : st) (lg : list Z) : Prop :=
   | Receive n fs | CReceive _ n fs =>
       (* the item the call was waiting for, then what was fed during its j fetches *)
       exists item j, lg = item ++ concat (firstn j fs) /\ concat (src s) = item ++ concat (src s')
-  | _ => concat (src s) = lg ++ concat (src s')
+  | Exactly n fs | CExactly _ n fs =>
+      exists pulled, concat (src s) = pulled ++ concat (src s') /\ weave fs pulled lg
   end.
 
 Definition conserve (s : st) (consumed : list Z) (s' : st) (r : res) (lg : list Z) : Prop :=
@@ -566,21 +588,22 @@ Proof.
     + exists []. reflexivity.
 Qed.
 
-Lemma exactly_conservation cn s n s' r lg : do_exactly false cn s n = (s', r, lg) ->
-  conserve s (consumed_of (Exactly n) r) s' r lg /\ concat (src s) = lg ++ concat (src s').
+Lemma exactly_conservation cn s n fs s' r lg : do_exactly false cn s n fs = (s', r, lg) ->
+  conserve s (consumed_of (Exactly n fs) r) s' r lg /\
+  exists pulled, concat (src s) = pulled ++ concat (src s') /\ weave fs pulled lg.
 Proof.
   unfold do_exactly. cbn [negb andb]. intros H. destruct (n <? 0)%Z eqn:En.
-  { injection H as <- <- <-. split; [apply conserve_same; discriminate|reflexivity]. }
-  destruct (exactly_loop_spec (fuel_of s) cn s n s' r lg) as (Hk & H1 & H2 & H3 & H4);
+  { injection H as <- <- <-. split; [apply conserve_same; discriminate|]. exists []. split; [reflexivity|constructor]. }
+  destruct (exactly_loop_spec (fuel_of s) cn s n fs s' r lg) as (Hk & (pl & H1 & W) & H2 & H3 & H4);
     [unfold fuel_of; lia | exact H |].
-  split; [|exact H1].
+  split; [|exists pl; split; assumption].
   refine (conj Hk (conj _ (conj H2 (conj _ _)))).
   - intros ->. exact H4.
   - destruct r; try contradiction; cbn [consumed_of].
     + destruct H4 as (-> & -> & _). rewrite app_nil_r. apply firstn_cut_split.
     + destruct H4 as (-> & _). reflexivity.
     + rewrite H4. reflexivity.
-  - exists lg. exact H1.
+  - exists pl. exact H1.
 Qed.
 
 Lemma until_conservation cn s d m fs s' r lg :
@@ -614,9 +637,9 @@ Proof.
                  buf s ++ lg = c ++ buf s' /\ (exists pulled, concat (src s) = pulled ++ concat (src s')) /\
                  log_spec s o s' lg).
   { intros c (A & B & C & D & E) L. exact (conj A (conj B (conj C (conj D (conj E L))))). }
-  unfold step_log. destruct o as [n fs|n|d m fs|d|k n fs|k n|k d m fs]; cbn [step_gen]; intros H.
+  unfold step_log. destruct o as [n fs|n fs|d m fs|d|k n fs|k n fs|k d m fs]; cbn [step_gen]; intros H.
   - destruct (receive_conservation _ _ _ _ _ _ _ H) as [C L]. exact (Flat _ C L).
-  - destruct (exactly_conservation _ _ _ _ _ _ H) as [C L]. exact (Flat _ C L).
+  - destruct (exactly_conservation _ _ _ _ _ _ _ H) as [C L]. exact (Flat _ C L).
   - destruct (until_conservation _ _ _ _ _ _ _ _ H) as [C L]. exact (Flat _ C L).
   - injection H as <- <- <-. apply (Flat []); [|split; reflexivity].
     refine (conj eq_refl (conj _ (conj (fun h => h) (conj eq_refl _)))); [discriminate|exists []; reflexivity].
@@ -624,8 +647,9 @@ Proof.
     + injection H as <- <- <-. apply (Flat []); [apply conserve_same; discriminate|]. exists [], 0. split; reflexivity.
     + destruct (receive_conservation _ _ _ _ _ _ _ H) as [C L]. exact (Flat _ C L).
   - destruct k as [|k].
-    + injection H as <- <- <-. apply (Flat []); [apply conserve_same; discriminate|reflexivity].
-    + destruct (exactly_conservation _ _ _ _ _ _ H) as [C L]. exact (Flat _ C L).
+    + injection H as <- <- <-. apply (Flat []); [apply conserve_same; discriminate|].
+      exists []. split; [reflexivity|constructor].
+    + destruct (exactly_conservation _ _ _ _ _ _ _ H) as [C L]. exact (Flat _ C L).
   - destruct k as [|k].
     + injection H as <- <- <-. apply (Flat []); [apply conserve_same; discriminate|]. exists 0. split; reflexivity.
     + destruct (until_conservation _ _ _ _ _ _ _ _ H) as [C L]. exact (Flat _ C L).
@@ -669,12 +693,13 @@ Qed.
 
 Lemma log_no_feed s o s' lg : no_feed o = true -> log_spec s o s' lg -> lg ++ concat (src s') = concat (src s).
 Proof.
-  unfold log_spec. destruct o as [n fs|n|d m fs|d|c n fs|c n|c d m fs]; cbn [no_feed]; intros Hn H;
-    try (symmetry; exact H).
+  unfold log_spec. destruct o as [n fs|n fs|d m fs|d|c n fs|c n fs|c d m fs]; cbn [no_feed]; intros Hn H.
   - destruct fs; [|discriminate]. destruct H as (item & j & -> & ->). rewrite firstn_nil. cbn. now rewrite app_nil_r.
+  - destruct fs; [|discriminate]. destruct H as (pl & -> & W). now rewrite (weave_nofeed _ _ _ W eq_refl).
   - destruct fs; [|discriminate]. destruct H as (k & -> & ->). apply fetch_arrivals_nofeed.
   - discriminate.
   - destruct fs; [|discriminate]. destruct H as (item & j & -> & ->). rewrite firstn_nil. cbn. now rewrite app_nil_r.
+  - destruct fs; [|discriminate]. destruct H as (pl & -> & W). now rewrite (weave_nofeed _ _ _ W eq_refl).
   - destruct fs; [|discriminate]. destruct H as (k & -> & ->). apply fetch_arrivals_nofeed.
 Qed.
 
@@ -747,14 +772,14 @@ Qed.
 (* cancellation at entry (k = 0) touches nothing at all; calls outside a cancelled scope never end in RCancelled *)
 Theorem buf_entry_cancel s n d m fs :
   step_log s (CReceive 0 n fs) = (s, RCancelled, []) /\
-  step_log s (CExactly 0 n) = (s, RCancelled, []) /\
+  step_log s (CExactly 0 n fs) = (s, RCancelled, []) /\
   step_log s (CUntil 0 d m fs) = (s, RCancelled, []).
 Proof. repeat split. Qed.
 
 Theorem buf_uncancelled_never_cancelled s o :
-  match o with CReceive _ _ _ | CExactly _ _ | CUntil _ _ _ _ => True | _ => snd (step s o) <> RCancelled end.
+  match o with CReceive _ _ _ | CExactly _ _ _ | CUntil _ _ _ _ => True | _ => snd (step s o) <> RCancelled end.
 Proof.
-  unfold step, step_log. destruct o as [n fs|n|d m fs|d|k n fs|k n|k d m fs]; cbn [step_gen]; try exact I.
+  unfold step, step_log. destruct o as [n fs|n fs|d m fs|d|k n fs|k n fs|k d m fs]; cbn [step_gen]; try exact I.
   - pose proof (skip_empty_0_not_cancelled (src s) fs []) as NC.
     unfold do_receive. cbn [hit Nat.eqb negb]. destruct (n <? 1)%Z; [discriminate|].
     destruct (buf s); [|discriminate]. destruct (knd s).
@@ -842,7 +867,7 @@ Proof.
       * rewrite skipn_all2 by exact Hl. reflexivity.
 Qed.
 
-Theorem buf_exactly_spec s n s' r : step s (Exactly n) = (s', r) ->
+Theorem buf_exactly_spec s n s' r : step s (Exactly n []) = (s', r) ->
   ((n < 0)%Z -> r = RValueError /\ s' = s) /\
   ((0 <= n)%Z ->
    ((exists x, r = RBytes x /\ length x = Z.to_nat n /\
@@ -853,10 +878,11 @@ Proof.
   unfold step, step_log. cbn [step_gen]. unfold do_exactly. cbn [negb andb]. intros H. split.
   { intros Hn. destruct (n <? 0)%Z eqn:E; [|lia]. cbn [fst] in H. injection H as <- <-. auto. }
   intros Hn. destruct (n <? 0)%Z eqn:E; [lia|].
-  destruct (exactly_loop (fuel_of s) 0 s n) as [[s1 r1] lg] eqn:L. cbn [fst] in H. injection H as <- <-.
-  destruct (exactly_loop_spec (fuel_of s) 0 s n s1 r1 lg) as (Hk & H1 & H2 & H3 & H4);
+  destruct (exactly_loop (fuel_of s) 0 s n []) as [[s1 r1] lg] eqn:L. cbn [fst] in H. injection H as <- <-.
+  destruct (exactly_loop_spec (fuel_of s) 0 s n [] s1 r1 lg) as (Hk & (pl & H1 & W) & H2 & H3 & H4);
     [unfold fuel_of; lia | exact L |].
-  pose proof (exactly_loop_0 (fuel_of s) s n) as NC. rewrite L in NC. cbn [fst snd] in NC.
+  apply weave_nofeed in W; [|reflexivity]. subst pl.
+  pose proof (exactly_loop_0 (fuel_of s) s n []) as NC. rewrite L in NC. cbn [fst snd] in NC.
   destruct r1; try contradiction; try congruence.
   - destruct H4 as (Hx & Hb & Hlen).
     assert (Hcut : cut n (buf s ++ lg) = Z.to_nat n).
@@ -872,7 +898,33 @@ Proof.
     assert (Hp : lg = concat (src s)) by (rewrite H1, Hsrc; cbn; now rewrite app_nil_r).
     split.
     + right. rewrite <- Hp. auto.
-    + split; [intros _|reflexivity]. rewrite <- Hp, <- Hb. exact Hlen.
+    + split; [intros _|reflexivity]. rewrite <- Hp, <- Hb. exact (proj1 Hlen eq_refl).
+Qed.
+
+(* receive_exactly(n) with feed_data() by other tasks during its waits (fs, one entry per fetch): the call hands out
+   exactly the first n bytes in ARRIVAL order - what was buffered, then for each fetch the data fed during the wait
+   followed by the chunk - and leaves the rest of what arrived in the buffer, in order; nothing is lost, duplicated or
+   reordered whatever is fed and however the wrapped stream chunks.  IncompleteRead only when the wrapped stream is at
+   its end; what arrived (the last feed included) stays buffered *)
+Theorem buf_exactly_fed_spec s n fs s' r lg : (0 <= n)%Z -> step_log s (Exactly n fs) = (s', r, lg) ->
+  (exists pulled, concat (src s) = pulled ++ concat (src s') /\ weave fs pulled lg) /\
+  ((exists x, r = RBytes x /\ length x = Z.to_nat n /\ x ++ buf s' = buf s ++ lg) \/
+   (r = RIncomplete /\ src s' = [] /\ buf s' = buf s ++ lg /\ (Z.of_nat (length (buf s)) < n)%Z)).
+Proof.
+  intros Hn. unfold step_log. cbn [step_gen]. unfold do_exactly. cbn [negb andb].
+  destruct (n <? 0)%Z eqn:E; [lia|]. intros L.
+  destruct (exactly_loop_spec (fuel_of s) 0 s n fs s' r lg) as (Hk & HP & H2 & H3 & H4);
+    [unfold fuel_of; lia | exact L |].
+  split; [exact HP|].
+  pose proof (exactly_loop_0 (fuel_of s) s n fs) as NC. rewrite L in NC. cbn [fst snd] in NC.
+  destruct r; try contradiction; try congruence.
+  - destruct H4 as (Hx & Hb & Hlen).
+    assert (Hcut : cut n (buf s ++ lg) = Z.to_nat n).
+    { unfold cut. destruct (0 <=? n)%Z eqn:E0; [reflexivity|lia]. }
+    rewrite Hcut in Hx, Hb. left. exists b. refine (conj eq_refl (conj _ _)).
+    + rewrite Hx, firstn_length. lia.
+    + rewrite Hx, Hb. apply firstn_skipn.
+  - destruct H4 as (Hb & Hsrc & _ & Hlt). right. exact (conj eq_refl (conj Hsrc (conj Hb Hlt))).
 Qed.
 
 (* receive_until: the exact characterisation, for every feed_data made while the call waits *)
@@ -999,8 +1051,8 @@ Proof. vm_compute. auto. Qed.
 (* F29: a negative count consumed data, and how much depended on the chunking *)
 Theorem exactly_negative_refuted_pinned : exists c1 c2 n x1 x2 s1 s2 l1 l2,
   concat c1 = concat c2 /\ n < 0 /\
-  step_pinned (fst (fst (step_pinned (init KObject c1) (Receive 1 [])))) (Exactly n) = (s1, RBytes x1, l1) /\
-  step_pinned (fst (fst (step_pinned (init KObject c2) (Receive 1 [])))) (Exactly n) = (s2, RBytes x2, l2) /\
+  step_pinned (fst (fst (step_pinned (init KObject c1) (Receive 1 [])))) (Exactly n []) = (s1, RBytes x1, l1) /\
+  step_pinned (fst (fst (step_pinned (init KObject c2) (Receive 1 [])))) (Exactly n []) = (s2, RBytes x2, l2) /\
   x1 <> x2.
 Proof.
   exists [[97; 98; 99]], [[97]; [98; 99]], (-1). do 6 eexists.
@@ -1036,7 +1088,7 @@ Proof. vm_compute. auto. Qed.
 (* cancellation: the second fetch of receive_exactly(5) is cancelled - the first chunk stays buffered; in an already
    cancelled scope (k = 1) a call that needs no fetch completes, as HEAD has no checkpoint of its own *)
 Example ex_cancelled :
-  step_log (init KByte [[97]; [98]; [99]]) (CExactly 2 5) = (mk KByte [97] [[98]; [99]], RCancelled, [97]) /\
+  step_log (init KByte [[97]; [98]; [99]]) (CExactly 2 5 []) = (mk KByte [97] [[98]; [99]], RCancelled, [97]) /\
   step_log (init KObject [[]; [97]]) (CReceive 2 4 []) = (mk KObject [] [[97]], RCancelled, []) /\
   step_log (mk KByte [97; 59] [[98]]) (CReceive 1 1 []) = (mk KByte [59] [[98]], RBytes [97], []) /\
   step_log (mk KByte [97] [[98; 59]; [99]]) (CUntil 2 [59; 10] 9 []) = (mk KByte [97; 98; 59] [[99]], RCancelled, [98; 59]).
@@ -1044,8 +1096,8 @@ Proof. vm_compute. auto. Qed.
 
 (* a failing call keeps what it read in the buffer; the next call gets it *)
 Example ex_fail_keeps_bytes :
-  let s1 := fst (step (init KByte [[97]; [98]]) (Exactly 5)) in
-  snd (step (init KByte [[97]; [98]]) (Exactly 5)) = RIncomplete /\ buf s1 = [97; 98] /\ src s1 = [] /\
+  let s1 := fst (step (init KByte [[97]; [98]]) (Exactly 5 [])) in
+  snd (step (init KByte [[97]; [98]]) (Exactly 5 [])) = RIncomplete /\ buf s1 = [97; 98] /\ src s1 = [] /\
   snd (step s1 (Receive 1 [])) = RBytes [97].
 Proof. vm_compute. auto. Qed.
 
@@ -1059,12 +1111,12 @@ Example ex_receive_cases :
 Proof. vm_compute. auto 10. Qed.
 
 Example ex_exactly_negative :
-  step (mk KByte [97; 98; 59] []) (Exactly (-1)) = (mk KByte [97; 98; 59] [], RValueError).
+  step (mk KByte [97; 98; 59] []) (Exactly (-1) []) = (mk KByte [97; 98; 59] [], RValueError).
 Proof. vm_compute. reflexivity. Qed.
 
 Example ex_conservation_run :
   let s := init KByte [[97; 59]; [10; 98; 98]; [59]] in
-  let ops := [Until [59; 10] 8 [[]; [97; 97]]; Feed [97]; Receive 2 [[98]]; Exactly 3; Until [59] 2 []] in
+  let ops := [Until [59; 10] 8 [[]; [97; 97]]; Feed [97]; Receive 2 [[98]]; Exactly 3 []; Until [59] 2 []] in
   buf s ++ arrived_run s ops = consumed_run s ops ++ buf (final step s ops) /\
   consumed_run s ops <> [] /\ src (final step s ops) = [].
 Proof. vm_compute. split; [reflexivity|]. split; [discriminate|reflexivity]. Qed.
